@@ -23,6 +23,7 @@
   follows the source tree that is being checked.
 -/
 import GormModel.Gen.StmtCacheStoreFacts
+import GormModel.Gen.StmtCacheSessFacts
 namespace Gorm.SCS
 
 /-- what the two creation sites and the derived-struct literals do -/
@@ -32,9 +33,14 @@ structure SCfg where
   sessStores : Bool := true   -- Session: a cache created after a failed lookup is stored under the same key
   sessShares : Bool := true   -- Session: the derived struct / PreparedStmtTX is built from `preparedStmt` (its Mux, its Stmts)
   txBinds : Bool := true      -- BeginTx: `&PreparedStmtTX{PreparedStmtDB: db}` — the transaction uses the struct it was begun on
+  sessReuse : Bool := false   -- Session (outside a transaction): the new handle gets `preparedStmt` ITSELF (repair of F14a);
+                              --   false: a second struct `&PreparedStmtDB{Mux: preparedStmt.Mux, Stmts: preparedStmt.Stmts}`
 deriving DecidableEq, Repr
 
 def good : SCfg := {}
+
+/-- the healthy configuration with either form of the session-level handle -/
+def goodWith (reuse : Bool) : SCfg := { sessReuse := reuse }
 
 /-- a `PreparedStmtDB` value -/
 structure PStruct where
@@ -111,6 +117,9 @@ def stepD (w : World) : DOp → World
       else
         let r := cacheFor w
         if isTx p then { r.1 with handles := r.1.handles ++ [.ptx r.2] }
+        else if w.cfg.sessReuse then
+          -- `tx.Statement.ConnPool = preparedStmt`: the registered struct itself
+          { r.1 with handles := r.1.handles ++ [.pdb r.2] }
         else
           -- `&PreparedStmtDB{Mux: preparedStmt.Mux, Stmts: preparedStmt.Stmts}`: a COPY pointing to the current map
           { r.1 with structs := r.1.structs ++ [r.1.structs[r.2]?.getD { cache := 0, map := none }],
@@ -163,24 +172,30 @@ def noRC : List DOp → Bool
   | _ :: r => noRC r
 
 
-/-! ### concurrent FIRST prepared sessions: `Load` and `Store` are two separate steps of `Session`
+/-! ### concurrent FIRST prepared sessions: the lookup and the registration are two steps of `Session`
 
-  gorm.go:268-273 is a check-then-act on `cacheStore` (`Load`, then `NewPreparedStmtDB` + `Store`; not `LoadOrStore`).
+  UNREPAIRED gorm.go:268-273 is a check-then-act on `cacheStore` (`Load`, then `NewPreparedStmtDB` + `Store`; not
+  `LoadOrStore`); the REPAIRED code (F14d) keeps the `Load` fast path and registers a cache it had to create with
+  `v, _ = cacheStore.LoadOrStore(key, NewPreparedStmtDB(…)); preparedStmt = v.(*PreparedStmtDB)`.
   Goroutines calling `Session(&Session{PrepareStmt: true})` on handles of one database are modelled with the two
-  steps every call consists of; a schedule is an arbitrary list of such steps (a step that is not enabled is skipped). -/
+  steps every call consists of; a schedule is an arbitrary list of such steps (a step that is not enabled is skipped).
+  `atomic` selects the transcription of the second step (regenerated: `genSessAtomic`).  `NewPreparedStmtDB` only
+  allocates (it touches nothing shared), so it is merged with the `Store` / `LoadOrStore` that follows it. -/
 
 structure CState where
   store : Option Nat := none                        -- `cacheStore[preparedStmtDBKey]` (a cache object)
   nC : Nat := 0                                     -- cache objects allocated so far
+  regs : List Nat := []                             -- ghost: every cache object these calls wrote into `cacheStore`, latest first
   loaded : Nat → Option (Option Nat) := fun _ => none   -- what goroutine g's `Load` returned (`none` = not executed yet)
   got : Nat → Option Nat := fun _ => none           -- the cache goroutine g's new handle works with
 
 inductive CAct
   | load (g : Nat)     -- `v, ok := db.cacheStore.Load(preparedStmtDBKey)`
-  | build (g : Nat)    -- found: reuse `v`; not found: `NewPreparedStmtDB` + `Store` (overwriting whatever is stored now)
+  | build (g : Nat)    -- found: reuse `v`; not found: `NewPreparedStmtDB`, then `Store` (overwriting whatever is stored now)
+                       --   resp. `LoadOrStore` (keeping and returning whatever is stored now)
 deriving DecidableEq, Repr
 
-def cstep (s : CState) : CAct → CState
+def cstep (atomic : Bool) (s : CState) : CAct → CState
   | .load g =>
     match s.loaded g with
     | some _ => s
@@ -189,12 +204,40 @@ def cstep (s : CState) : CAct → CState
     match s.loaded g, s.got g with
     | some (some c), none => { s with got := fun j => if j = g then some c else s.got j }
     | some none, none =>
-      { s with nC := s.nC + 1, store := some s.nC, got := fun j => if j = g then some s.nC else s.got j }
+      if atomic then
+        -- `LoadOrStore(key, NewPreparedStmtDB(…))`: the new object is registered only if nothing is; the caller takes
+        -- what is registered afterwards (the loser's object stays unused)
+        match s.store with
+        | some c => { s with nC := s.nC + 1, got := fun j => if j = g then some c else s.got j }
+        | none => { s with nC := s.nC + 1, store := some s.nC, regs := s.nC :: s.regs,
+                           got := fun j => if j = g then some s.nC else s.got j }
+      else
+        { s with nC := s.nC + 1, store := some s.nC, regs := s.nC :: s.regs,
+                 got := fun j => if j = g then some s.nC else s.got j }
     | _, _ => s
 
-def crun (s : CState) (sched : List CAct) : CState := sched.foldl cstep s
+def crun (atomic : Bool) (s : CState) (sched : List CAct) : CState := sched.foldl (cstep atomic) s
 
 /-! ### the configuration of the CURRENT source tree, from the regenerated creation-site facts -/
+
+open Gen in
+/-- `DB.Session` registers the cache it creates with ONE `cacheStore.LoadOrStore(preparedStmtDBKey, NewPreparedStmtDB(…))`
+    whose result is what `target` becomes, after a failed `Load` of the same key whose found-branch assigns the loaded
+    value to the same `target`; and it contains no plain `Store` of a new cache -/
+def genSessAtomic : Bool :=
+  let key := "preparedStmtDBKey"
+  let regs := cacheRegisters.filter (·.fn == "DB.Session")
+  let inSess := cacheSites.filter (·.fn == "DB.Session")
+  regs.length == 1 && inSess.length == 1 && inSess.all (fun s => !s.stored && s.bound == "") &&
+  regs.all (fun r => r.key == key && r.valueIsNewCache && r.resultVar != "" && r.target != "" &&
+                     r.afterFailedLoad && r.loadKey == key && r.foundTarget == r.target &&
+                     r.foundReuse == r.loadVar ++ ".(*PreparedStmtDB)")
+
+open Gen in
+/-- the variable `DB.Session` holds the looked-up / created cache in -/
+def genSessVar : String :=
+  if genSessAtomic then (((cacheRegisters.filter (·.fn == "DB.Session")).head?).map (·.target)).getD "?"
+  else ((((cacheSites.filter (·.fn == "DB.Session")).head?).map (·.bound)).getD "?")
 
 open Gen in
 def genSCfg : SCfg :=
@@ -203,15 +246,21 @@ def genSCfg : SCfg :=
   let inSess := cacheSites.filter (·.fn == "DB.Session")
   let field (l : CacheLit) (k : String) : String := ((l.fields.find? (·.1 == k)).map (·.2)).getD ""
   let sessLits := cacheLits.filter (·.fn == "DB.Session")
-  let bound := ((inSess.head?).map (·.bound)).getD "?"
+  let bound := genSessVar
+  -- what the new handle gets outside a transaction (every case of the type switch that is not the `Tx` case)
+  let plainPools := sessionPools.filter (·.inCase != "Tx")
   { openStores := !inOpen.isEmpty && inOpen.all (fun s => s.bound != "" && s.stored && s.storeKey == key && s.poolAssigned != ""),
-    sessLoads := !inSess.isEmpty && inSess.all (fun s => s.afterFailedLoad && s.loadKey == key && s.loadVar != "" &&
-                   s.reuse == s.loadVar ++ ".(*PreparedStmtDB)"),
-    sessStores := !inSess.isEmpty && inSess.all (fun s => s.bound != "" && s.stored && s.storeKey == key),
+    sessLoads := genSessAtomic ||
+                 (!inSess.isEmpty && inSess.all (fun s => s.afterFailedLoad && s.loadKey == key && s.loadVar != "" &&
+                   s.reuse == s.loadVar ++ ".(*PreparedStmtDB)")),
+    sessStores := genSessAtomic || (!inSess.isEmpty && inSess.all (fun s => s.bound != "" && s.stored && s.storeKey == key)),
     sessShares := !sessLits.isEmpty && sessLits.all (fun l =>
                    if l.typ == "PreparedStmtTX" then field l "PreparedStmtDB" == bound
-                   else field l "Mux" == bound ++ ".Mux" && field l "Stmts" == bound ++ ".Stmts"),
+                   else field l "Mux" == bound ++ ".Mux" && field l "Stmts" == bound ++ ".Stmts") &&
+                  !plainPools.isEmpty && plainPools.all (fun p => p.literal == "PreparedStmtDB" || (p.literal == "" && p.rhs == bound)),
     txBinds := (cacheLits.filter (·.fn == "PreparedStmtDB.BeginTx")).all (fun l => l.typ == "PreparedStmtTX" && l.recv != "" && field l "PreparedStmtDB" == l.recv) &&
-               (cacheLits.any (·.fn == "PreparedStmtDB.BeginTx")) }
+               (cacheLits.any (·.fn == "PreparedStmtDB.BeginTx")),
+    sessReuse := !plainPools.isEmpty && plainPools.all (fun p => p.literal == "" && p.rhs == bound) &&
+                 (sessLits.all fun l => l.typ != "PreparedStmtDB") }
 
 end Gorm.SCS
